@@ -4,7 +4,7 @@ import N2k.Lemmas.HeartbeatRun
 
 Model: `Model/Heartbeat.lean` (`tN2kSyncScheduler`, `SetHeartbeatIntervalAndOffset`, `SendHeartbeat`,
 `SetN2kPGN126993`, the heartbeat defaults of `Open()`), composed with the send path of `Model/Send.lean`.
-The model transcribes the tree with the three `fix:` commits recorded in `known_findings.d/C12.json`.
+The model transcribes the tree with the four `fix:` commits recorded in `known_findings.d/C12.json`.
 Operations on the node (`Op`) and runs (`run`) are defined in `Lemmas/HeartbeatRun.lean`; they are the operations the
 `hb` engine executes.
 -/
@@ -212,18 +212,19 @@ theorem C12_clip_group_function (cur x : Nat) (h1 : 1000 ≤ x) (h2 : x ≤ 6000
 
 /-! ## inactive nodes -/
 
-/-- **Inactive nodes are silent.** In every mode other than NodeOnly / ListenAndNode (`IsActiveNode()` false),
-`SendHeartbeat(force)` — scheduled or forced — does nothing at all, and a whole `ParseMessages()` poll hands no
-heartbeat to `SendMsg`, whatever the schedulers contain. (`SendHeartbeat(int iDev)` is an explicit application send;
-it goes through the `SendMsg` gate of C04.) -/
+/-- **Inactive nodes are silent.** In every mode other than NodeOnly / ListenAndNode (`IsActiveNode()` false) all
+three entry points — `SendHeartbeat(force)` scheduled or forced, `SendHeartbeat(iDev)`, and a whole `ParseMessages()`
+poll — leave the state alone and hand no heartbeat to `SendMsg`, whatever the schedulers contain. -/
 theorem C12_inactive_silent (h : HSt) (hm : h.st.claimMode = false) :
-    (∀ force, sendHeartbeat force h = (h, [])) ∧ (pollH h).2 = [] ∧ (pollH h).1.hb = h.hb ∧ (pollTopH h).2 = [] := by
+    (∀ force, sendHeartbeat force h = (h, [])) ∧ (∀ i, sendHeartbeatOne h i = (h, none)) ∧
+    (pollH h).2 = [] ∧ (pollH h).1.hb = h.hb ∧ (pollTopH h).2 = [] := by
   have hp : ∀ h : HSt, h.st.claimMode = false → (pollH h).2 = [] ∧ (pollH h).1.hb = h.hb := by
     intro h hm
     unfold pollH
     rw [sendHeartbeat_inactive false _ (by exact hm)]
     exact ⟨rfl, rfl⟩
-  refine ⟨fun force => sendHeartbeat_inactive force h hm, (hp h hm).1, (hp h hm).2, ?_⟩
+  refine ⟨fun force => sendHeartbeat_inactive force h hm, fun i => (sendHeartbeatOne_spec h i).2.2.2.2 hm,
+    (hp h hm).1, (hp h hm).2, ?_⟩
   unfold pollTopH
   by_cases h3 : h.st.openState = 3
   · simp only [if_pos h3]; exact (hp h hm).1
